@@ -2255,6 +2255,69 @@ def c13_fragment_data_dict():
     return go()
 
 
+def c13_subsample_call_sites():
+    """Subsampling of individuals in make_data_dict_vcf / make_data_dict_vcf_cyvcf2: every numpy.random.choice call in those two functions (at least
+    one in each) is evaluated, as written, with n = 4 called genotypes for population `pop` and a requested number subsample[pop] = k symbolic:
+    it draws k of the indices 0..n-1 WITHOUT replacement (so k distinct individuals contribute 2k chromosomes).
+    Mechanical extraction: the call expression only; the free names pop, genotypes, gt_dict, subsample, subsample_dict are bound to that
+    scenario (another free name makes the obligation undecided, not refuted).  The surrounding text parsing is covered by bounded drivers only."""
+    oid = 'C13/Misc.py:subsample-draw'
+    out = []
+    mod = ModInfo.load('dadi/Misc.py')
+    for fname in ('make_data_dict_vcf', 'make_data_dict_vcf_cyvcf2'):
+        fn = 'dadi/Misc.py::' + fname
+        o = '%s.%s' % (oid, fname)
+        node = mod.funcs.get(fname)
+        if node is None:
+            out.append(struct(o, False, 'function not found', fn, undecided=True))
+            continue
+        sites = [c for c in ast.walk(node) if isinstance(c, ast.Call) and isinstance(c.func, ast.Attribute) and c.func.attr in ('choice', 'choices', 'permutation', 'sample', 'randint', 'integers')]
+        out.append(struct(o + '.sites', len(sites) >= 1, '%d random draw(s) in the function' % len(sites), fn, finding_key='C13/subsample-draw/' + fname))
+        for si, call in enumerate(sites):
+            os_ = '%s.site%d' % (o, si)
+            try:
+                from vf.pyvc import Env
+                n = 4
+                k = z3.Int('k')
+                seen = []
+
+                def ah(ex_, fref, a, kw, ctx):
+                    seen.append((vrepr(fref), list(a), dict(kw)))
+                    return VList([z3.Int('drawn%d' % i) for i in range(2)], 'ndarray')
+                ex = Executor(policy=lambda fr: 'abstract')
+                ex.abstract_hook = ah
+                gts = VList([Tm('gt%d' % i) for i in range(n)])
+                env = Env(None, mod)
+                env.vars.update(pop='P', genotypes=gts, gt_dict=VDict({'P': gts}), subsample=VDict({'P': k}), subsample_dict=VDict({'P': gts}))
+
+                def thunk(e):
+                    return e.eval(call, env, mod)
+                paths = ex.explore(thunk, base_pc=[k >= 1, k <= n])
+                if len(paths) != 1 or paths[0].outcome != 'return' or len(seen) < 1:
+                    out.append(struct(os_, False, 'call not evaluated on one path: %r' % paths[:1], fn, undecided=True))
+                    continue
+                nm, a, kw = seen[-1]
+                bad = []
+                if not nm.rstrip(')').endswith('random.choice'):
+                    out.append(struct(os_, False, 'a draw other than numpy.random.choice (%s): not covered by this contract' % nm[:60], fn, undecided=True))
+                    continue
+                popn = a[0] if a else kw.get('a')
+                items = [exact(x) for x in ex.iterate(popn)] if isinstance(popn, (VList, list, tuple)) else None
+                if not (items == list(range(n)) or (isinstance(exact(popn), int) and exact(popn) == n)):
+                    bad.append('population is %s, expected the indices 0..%d' % (vrepr(popn)[:60], n - 1))
+                size = a[1] if len(a) > 1 else kw.get('size')
+                if not (isinstance(size, z3.ExprRef) and size.eq(k)):
+                    bad.append('size is %s, expected subsample[pop]' % vrepr(size)[:40])
+                rep = a[2] if len(a) > 2 else kw.get('replace', True)          # numpy's default is replace=True
+                if rep is not False:
+                    bad.append('replace is %s: individuals can be drawn twice' % vrepr(rep)[:20])
+                out.append(struct(os_, not bad, '; '.join(bad) or 'numpy.random.choice(indices 0..n-1, subsample[pop], replace=False)', fn,
+                                  finding_key='C13/subsample-draw/' + fname))
+            except (Unsupported, PyRaise, KeyError) as e:
+                out.append(struct(os_, False, 'outside the modelled subset: %r' % (e,), fn, undecided=True))
+    return out
+
+
 def c13_bootstraps_from_chunks():
     """Misc.bootstraps_from_dd_chunks: one spectrum per fragment (from_data_dict with the caller's pop_ids, projections, mask_corners,
     polarized), and every bootstrap is the sum of len(fragments) spectra drawn with replacement from exactly that list, re-wrapped with
